@@ -52,6 +52,9 @@ static void env_put_file(const QString &name, const QByteArray &bytes, int day, 
     QFile f(env_path(name)); f.open(QIODevice::WriteOnly); f.write(bytes); f.close();
     env_set_mtime(name, day, ms); env_snapshot();
 }
+// a file of the pre-state that exists or not (symbolic build: it occupies a FIXED slot of the directory model either way, so
+// that names and days per slot stay concrete for the solver)
+static void env_put_file_slot(int, bool exists, const QString &name, const QByteArray &bytes, int day, int ms) { if (exists) env_put_file(name, bytes, day, ms); }
 static QStringList env_list() { return QDir(g_env_dir).entryList(QDir::Files, QDir::Name); }
 static QByteArray env_read(const QString &name) { QFile f(env_path(name)); if (!f.open(QIODevice::ReadOnly)) return QByteArray(); return f.readAll(); }
 static void env_bufsize(int) { }
@@ -74,6 +77,14 @@ static void env_put_file(const QString &name, const QByteArray &bytes, int day, 
     for (int i = 0; i < QM_FS_SLOTS; ++i) if (i == s) {
         for (int k = 0; k < QM_FS_FCAP; ++k) if (k < bytes.size()) qm_fs[i].bytes[k] = (unsigned char)bytes.at(k);
         qm_fs[i].len = bytes.size(); qm_fs[i].durable = bytes.size(); qm_fs[i].mday = day; qm_fs[i].mms = ms;
+    }
+}
+static void env_put_file_slot(int slot, bool exists, const QString &name, const QByteArray &bytes, int day, int ms)
+{
+    for (int i = 0; i < QM_FS_SLOTS; ++i) if (i == slot) {       // slot is a concrete number at every call site
+        qm_fs[i].exists = exists; qm_fs[i].name = name;
+        for (int k = 0; k < QM_FS_FCAP; ++k) if (k < bytes.size()) qm_fs[i].bytes[k] = (unsigned char)bytes.at(k);
+        qm_fs[i].len = bytes.size(); qm_fs[i].durable = bytes.size(); qm_fs[i].mday = day; qm_fs[i].mms = ms; qm_fs[i].mseq = ++qm_fs_seq;
     }
 }
 static QStringList env_list() { return QDir(QString::fromLatin1(QM_FS_DIR)).entryList(QDir::Files, QDir::Name); }
